@@ -374,6 +374,10 @@ def run_property(mod, tier, only=None):
     known_hits = Counter()
     harness_errors = []
 
+    import logging
+
+    logging.disable(logging.CRITICAL)
+
     # 1. committed replays (seconds-long regression tier)
     rdir = VERIF_DIR / "replays" / mod.ID
     replayed = 0
